@@ -24,7 +24,8 @@ ASSUMPTIONS = ['duplicate candidates (pairwise mode lists non-label self pairs t
                'required-set inclusion is asserted only when the cap is at least the length of the longest candidate list a '
                'duplicate-tolerant implementation may build (|required| + #non-label columns)']
 
-TRICKY_NAMES = ['BRAND_RELEVANCE', 'AND_REL', 'xAND_RELy', ' AND_REL', 'AND_REL ', 'a AND b', 'AND', 'REL', 'label2', 'xlabel', ' label',
+TRICKY_NAMES = ['MULTIEX-tags-blue', 'MULTIEX-tags-green', 'MULTIEX-tags-red', 'SUBFEATURE-a&b', 'SUBFEATURE-a&c', 'CONTROL-x', 'f_tr_sqrt',
+                'BRAND_RELEVANCE', 'AND_REL', 'xAND_RELy', ' AND_REL', 'AND_REL ', 'a AND b', 'AND', 'REL', 'label2', 'xlabel', ' label',
                 'label ', 'Label', 'a,b', "('a', 'b')", '0', 'None', 'nan']
 NAME_ALPHABET = ['a', 'b', 'c', 'x', 'y', 'f', '1', '2', ' ', '_', '-', '.', 'é', '日', 'A', 'N', 'D', '&', '|']
 
@@ -33,7 +34,7 @@ NAME_ALPHABET = ['a', 'b', 'c', 'x', 'y', 'f', '1', '2', ' ', '_', '-', '.', 'é
 def names_strategy(draw):
     n = draw(st.one_of(st.integers(1, 6), st.integers(1, 40)))
     base = draw(st.lists(st.text(alphabet=NAME_ALPHABET, min_size=1, max_size=6), min_size=n, max_size=n, unique=True))
-    tricky = draw(st.lists(st.sampled_from(TRICKY_NAMES), max_size=3, unique=True))
+    tricky = draw(st.lists(st.sampled_from(TRICKY_NAMES), max_size=4, unique=True))
     base = [b for b in dict.fromkeys(base + tricky) if b != 'label' and ' AND_REL ' not in b] or ['f']
     # turn some into relation-feature names
     nrel = draw(st.integers(0, min(4, len(base) // 2)))
@@ -67,7 +68,8 @@ def case_strategy(draw):
     cap = draw(st.one_of(st.integers(1, nreq + len(cols) + 5), st.sampled_from([2**15, 10**4 + 1, 10**5])))
     return {'cols': cols, 'nrows': nrows, 'seed': seed, 'pairwise': pairwise, 'heuristic': heuristic, 'cap': cap,
             'batches': draw(st.sampled_from([1, 1, 2, 3])), 'labels': labels,
-            'ncpus': draw(st.sampled_from([1, 1, 2, 3, 4, 7, 16])), 'grow': draw(st.sampled_from([0, 0, 1, 3]))}
+            'ncpus': draw(st.sampled_from([1, 1, 2, 3, 4, 7, 16])), 'grow': draw(st.sampled_from([0, 0, 1, 3])),
+            'ref_json': draw(st.sampled_from([0, 0, 0, 1, 2]))}
 
 
 def upair(a, b):
@@ -111,13 +113,34 @@ def oracle(case, rec):
     if any('AND_REL' in c and ' AND_REL ' not in c for c in cols):
         rec.cls('has-lookalike-of-relation-name')
     colset = set(cols)
+    ref_path = None
+    if case.get('ref_json') and h in ('MI-numba-randomized', 'max-value-coverage', 'Constant'):
+        # a reference model given to a NON-prior heuristic only adds context: the requested pairs stay the same
+        import json as _json
+        import os as _os
+        import tempfile as _tempfile
+        plain = [c for c in cols if ' AND_REL ' not in c and c not in labels]
+        fd, ref_path = _tempfile.mkstemp(prefix='c06-ref-', suffix='.json')
+        with _os.fdopen(fd, 'w') as fh:
+            _json.dump({'desc': {'features': plain[:int(case['ref_json'])], 'fields': []}}, fh)
+        rec.cls('reference-json-with-non-prior-heuristic')
+    try:
+        _oracle_body(case, rec, cols, df, colset, labels, h, pairwise, cap, eff_cap, nb, rng, ref_path)
+    finally:
+        if ref_path:
+            import os as _os
+            _os.unlink(ref_path)
+
+
+def _oracle_body(case, rec, cols, df, colset, labels, h, pairwise, cap, eff_cap, nb, rng, ref_path):
     cols0, df0 = list(cols), df
     grow = int(case.get('grow', 0)) if cap > 10**4 or True else 0
     for li, label in enumerate(labels):
         cols, df, colset = list(cols0), df0, set(cols0)
         # a later ranking of the same columns against another label column must not be influenced by the earlier one
         args = stubs.make_args(heuristic=h, target_ranking_only='False' if pairwise else 'True',
-                               combination_number_upper_bound=cap, label_column=label)
+                               combination_number_upper_bound=cap, label_column=label,
+                               reference_model_JSON=ref_path or '')
         req = required_pairs(cols, pairwise, h, label)
         allowed = allowed_pairs(cols, pairwise, h, label)
         dups = len([c for c in cols if c != label]) if pairwise else 0
